@@ -270,8 +270,47 @@ def run_csv(ck, F):
                % ("field offsets with is_char_boundary" if whole else "the buffer with from_utf8"), "%s:%s" % (fn["file"], fn["line"]))
 
 
+def run_utf8_flag(ck, F):
+    ck.rule("C08.utf8-validation-keyed-on-target", "in the Parquet Arrow readers the decision to validate UTF-8 is not taken from the file's own annotation alone: a column "
+            "value decoder whose `validate_utf8` derives only from ColumnDescriptor::converted_type() builds string arrays unchecked whenever the Arrow type hint "
+            "(supplied schema or the file's embedded ARROW:schema) says Utf8 for a BINARY column without the UTF8 annotation", floor=3)
+    from .mirlib import op_local as _ol
+    for fn in F.crate("parquet").fns:
+        if "mir" not in fn or not fn["id"].lstrip("<").startswith("parquet::arrow::array_reader"):
+            continue
+        b = Body(fn)
+        for bl in range(b.n):
+            for st in b.stmts(bl):
+                if not (st[0] == "a" and st[2][0] == "agg" and st[2][1][0] == "adt"):
+                    continue
+                try:
+                    adt = F.adt(st[2][1][1])
+                except factsmod.MissingAnchor:
+                    continue
+                names = [f["name"] for f in adt["variants"][st[2][1][2]]["fields"]]
+                if "validate_utf8" not in names:
+                    continue
+                op = st[2][2][names.index("validate_utf8")]
+                l = _ol(op)
+                if l is None:
+                    continue
+                seen, calls = b.back_slice(l)
+                srcs = [flow.norm(callee(c) or "").split("::")[-1] for _, c in calls]
+                if "converted_type" not in srcs and "logical_type" not in srcs:
+                    continue        # flag passed in by the caller: judged where it is computed
+                params = [b.locals[x] for x in seen if 1 <= x <= b.argc]
+                sees_arrow_type = any("arrow_schema::DataType" in t or "arrow_schema::datatype::DataType" in t for t in params)
+                key = flow.norm(fn["id"])
+                if sees_arrow_type:
+                    ck.ok("C08.utf8-validation-keyed-on-target", key, "the flag also depends on the Arrow type being produced")
+                else:
+                    ck.bad("C08.utf8-validation-keyed-on-target", key, "%s computes validate_utf8 from the column's converted type only (%s); the Arrow type requested for the column is not "
+                           "consulted, so a BINARY column read as a string type is built without UTF-8 validation" % (fn["id"], srcs), "%s:%s" % (fn["file"], st[3]))
+
+
 def run(ck, tier):
     F = factsmod.Facts("ws")
+    run_utf8_flag(ck, F)
     run_csv(ck, F)
     run_ipc_gating(ck, F)
     run_inventory(ck, F)
